@@ -213,31 +213,3 @@ unops!(m128, shl__f642, shr__f642, shlin__f642, shrin__f642, rot__f642, cnt__f64
 unops!(m128, shl__bvd, shr__bvd, shlin__bvd, shrin__bvd, rot__bvd, cnt__bvd, edit__bvd, slice__bvd, not__bvd, Bvd);
 unops!(m128, shl__bv, shr__bv, shlin__bv, shrin__bv, rot__bv, cnt__bv, edit__bv, slice__bv, not__bv, Bv);
 
-/// name -> harness, for native replay; the same list drives the Kani proof declarations
-macro_rules! registry { ($($name:ident),* $(,)?) => {
-    pub const HARNESSES: &[&str] = &[$(stringify!($name)),*];
-    pub fn run_named(name: &str, s: &mut VecSrc) -> bool {
-        match name { $(stringify!($name) => { $name(s); true })* _ => false }
-    }
-    #[cfg(kani)]
-    mod proofs {
-        use super::*;
-        $( #[kani::proof] #[kani::unwind(34)] fn $name() { super::$name(&mut KaniSrc) } )*
-    }
-}}
-registry!(
-    and__f82_f82, or__f82_f82, xor__f82_f82, add__f82_f82, sub__f82_f82, mul__f82_f82, cmp__f82_f82,
-    and__f82_f162, or__f82_f162, xor__f82_f162, add__f82_f162, sub__f82_f162, mul__f82_f162, cmp__f82_f162,
-    and__f162_f83, or__f162_f83, xor__f162_f83, add__f162_f83, sub__f162_f83, mul__f162_f83, cmp__f162_f83,
-    and__f82_bvd, or__f82_bvd, xor__f82_bvd, add__f82_bvd, sub__f82_bvd, mul__f82_bvd, cmp__f82_bvd,
-    and__bvd_bvd, or__bvd_bvd, xor__bvd_bvd, add__bvd_bvd, sub__bvd_bvd, mul__bvd_bvd, cmp__bvd_bvd,
-    and__bvd_f82, or__bvd_f82, xor__bvd_f82, add__bvd_f82, sub__bvd_f82, mul__bvd_f82, cmp__bvd_f82,
-    and__bvd_f642, or__bvd_f642, xor__bvd_f642, add__bvd_f642, sub__bvd_f642, mul__bvd_f642, cmp__bvd_f642,
-    and__bv_bv, or__bv_bv, xor__bv_bv, add__bv_bv, sub__bv_bv, mul__bv_bv, cmp__bv_bv,
-    shl__f82, shr__f82, shlin__f82, shrin__f82, rot__f82, cnt__f82, edit__f82, slice__f82, not__f82,
-    shl__f83, shr__f83, shlin__f83, shrin__f83, rot__f83, cnt__f83, edit__f83, slice__f83, not__f83,
-    shl__f162, shr__f162, shlin__f162, shrin__f162, rot__f162, cnt__f162, edit__f162, slice__f162, not__f162,
-    shl__f642, shr__f642, shlin__f642, shrin__f642, rot__f642, cnt__f642, edit__f642, slice__f642, not__f642,
-    shl__bvd, shr__bvd, shlin__bvd, shrin__bvd, rot__bvd, cnt__bvd, edit__bvd, slice__bvd, not__bvd,
-    shl__bv, shr__bv, shlin__bv, shrin__bv, rot__bv, cnt__bv, edit__bv, slice__bv, not__bv,
-);
